@@ -279,9 +279,11 @@ def make_component(cs, trace=None):
         def solve_nonlinear(self, inputs, outputs):
             xh = xhat(inputs)
             u = uhat(outputs)
-            for _ in range(60):
+            for it in range(60):
                 r = resid(xh, u)
-                if np.max(np.abs(r)) < 1e-15:
+                # at least two Newton steps: under complex step a converged real part says nothing about the
+                # imaginary (derivative) part of the state
+                if it >= 2 and np.max(np.abs(r)) < 1e-15:
                     break
                 u = u - np.linalg.solve(dRdu(u), r)
             for oi, ov in enumerate(cs['outputs']):
